@@ -70,6 +70,54 @@ func c12SyncKeywords(c *Ctx, p *core.Prog) {
 		return out
 	}
 	sync := constsIn(sk)
+	// the keyword set kept in a package-level lookup table: take the keys stored into it during package initialisation
+	for _, b := range sk.Blocks {
+		for _, in := range b.Instrs {
+			lk, ok := in.(*ssa.Lookup)
+			if !ok {
+				continue
+			}
+			u, ok := lk.X.(*ssa.UnOp)
+			if !ok {
+				continue
+			}
+			g, ok := u.X.(*ssa.Global)
+			if !ok {
+				continue
+			}
+			for _, fn := range []*ssa.Function{g.Pkg.Func("init")} {
+				if fn == nil {
+					continue
+				}
+				for _, ib := range fn.Blocks {
+					for _, ii := range ib.Instrs {
+						mu, ok := ii.(*ssa.MapUpdate)
+						if !ok {
+							continue
+						}
+						// the map being filled is the one stored into g
+						isG := false
+						for _, ref := range core.Referrers(mu.Map) {
+							if st, ok := ref.(*ssa.Store); ok && st.Addr == ssa.Value(g) {
+								isG = true
+							}
+						}
+						if ld, ok := mu.Map.(*ssa.UnOp); ok && ld.X == ssa.Value(g) {
+							isG = true
+						}
+						if !isG {
+							continue
+						}
+						if cst, ok := mu.Key.(*ssa.Const); ok && cst.Value != nil && isTokType(cst.Type()) {
+							if v, ok := constant.Int64Val(cst.Value); ok {
+								sync[names[v]] = true
+							}
+						}
+					}
+				}
+			}
+		}
+	}
 	delete(sync, "Unknown") // the `Type != TokenTypeUnknown` guard, not a keyword
 	dispatch := constsIn(ps)
 	elsewhere := map[string][]string{}
